@@ -33,14 +33,179 @@ def solver_log(log):
         torch.cholesky_solve = old_cs
 
 
+def gram_closed_form_np(kname, C, mat, L, q, p=None, const_mix=0.0, power=2):
+    """float64 numpy Gram matrix of the rows of C from the DOCUMENTED closed forms (same definitions as oracle.kernel_closed_form, which is mpmath
+    and per entry; this one is for n in the hundreds).  mat: None | 1-D | 2-D array as the stored state holds it (for 'l2_light' it is M itself)."""
+    C = np.asarray(C, dtype=np.float64); n = C.shape[0]
+    def tr(Z):
+        if mat is None:
+            return Z
+        A = np.asarray(mat, dtype=np.float64)
+        return Z * A[None, :] if A.ndim == 1 else Z @ A
+    if kname == 'l2_light':
+        D = C[:, None, :] - C[None, :, :]                              # (n, n, d) explicit differences, no ||x||^2 - 2x.z + ||z||^2
+        MD = D if mat is None else tr(D.reshape(n * n, -1)).reshape(n, n, -1)
+        r = np.sqrt(np.clip((D * MD).sum(-1), 0.0, None))
+        return np.exp(-(r / L) ** q)
+    T = tr(C)
+    D = np.abs(T[:, None, :] - T[None, :, :])
+    if kname == 'l2':
+        return np.exp(-(np.sqrt((D * D).sum(-1)) / L) ** q)
+    if kname == 'l1':
+        return np.exp(-((D ** q) * (D > 0)).sum(-1) / L ** q)
+    if kname == 'lpq':
+        r = (((D ** p) * (D > 0)).sum(-1)) ** (1.0 / p)
+        return np.exp(-(r / L) ** q)
+    if kname == 'sum_power':
+        m = np.exp(-(D / L) ** q).mean(-1)
+        return ((1.0 - const_mix) * m + const_mix) ** power
+    raise ValueError(kname)
+
+
+def direct_solve_cap(mem_gb, dtype):
+    """largest n whose (n, n) Gram matrix of this dtype fits into mem_gb GiB (the number a memory-minded dispatcher would compute)"""
+    return int(math.isqrt(int(mem_gb * 1024 ** 3 / (8 if dtype == torch.float64 else 4))))
+
+
+def resource_limit_regime(ck, xr):
+    """(c) leaf fits whose training set EXCEEDS a resource limit the caller configured.
+
+    The statement quantifies over all training sets and configurations: a memory budget (`mem_gb` of the constructor, directly or through
+    rfm_params['model'] of a forest), the attribute `max_lstsq_size`, AGOP batch / sample limits (`M_batch_size`, `total_points_to_sample`) are
+    configuration, and whatever they make the fit do, the stored coefficients must solve (K + lambda I) alpha = Y for ALL stored centers.
+    Family: budget b in {1e-6 .. 3e-4} GiB x dtype (the element size decides which n fits) x n AT the largest size that fits / one above / 1.25x / 2x above,
+    x point cap below n, x AGOP limits, x kernel x solver x diag x bandwidth mode x iters 0..3 x early stop / best restore.
+    Oracles: residual with the library's kernel on the stored state, predict(centers) = Y - lambda alpha, and the residual with a float64 numpy Gram
+    matrix of the documented closed form (independent of the library's kernel code)."""
+    rr = np.random.default_rng(ck.seed + 20202)
+    kernels = [('l2', {}), ('l2_high_dim', {}), ('l1', {}), ('lpq', dict(norm_p=1.5)), ('sum_power_laplace', {})]
+    solvers = ['solve', 'cholesky', 'lu']
+    budgets = [1e-6, 1e-5, 3e-5, 1e-4, 3e-4]
+    for j in range(ck.n(30, 150)):
+        kern, extra = kernels[j % 5]
+        solver = solvers[(j // 5) % 3]
+        limit = ['mem_gb', 'mem_gb', 'mem_gb', 'max_lstsq_size', 'mem_gb+max_lstsq_size'][(j // 3) % 5] if j % 6 != 5 else 'mem_gb'
+        mem = budgets[(j + j // 5) % 5]
+        # float32 only under the two smallest budgets: the rounding allowance of the residual grows with n u, and a float32 allowance at n in the hundreds
+        # would be as large as the targets themselves
+        dtype = torch.float32 if (j % 2 == 1 and mem <= 1e-5) else torch.float64
+        cap = direct_solve_cap(mem, dtype)
+        # where n sits relative to the largest size that fits: 0 = exactly at it (everything still fits), then one above, 1.25x, 2x
+        pos = [1, 2, 3, 1, 0, 2][j % 6]
+        n = [cap, cap + 1, cap + max(2, cap // 4), 2 * cap + 3][pos]
+        if kern in ('l1', 'lpq', 'sum_power_laplace') and n > 130:        # the autograd-based AGOPs of these kernels are slow at several hundred rows
+            mem = [1e-5, 3e-5][j % 2]; cap = direct_solve_cap(mem, dtype); n = [cap, cap + 1, cap + max(2, cap // 4), 2 * cap + 3][pos]
+            if n > 100:
+                n = cap + max(2, cap // 4)
+        n = max(n, 6)
+        point_cap = None
+        if 'max_lstsq_size' in limit:
+            point_cap = [3, 7, n // 2, n - 1][(j // 15 + j) % 4]
+        ctor = {}
+        if 'mem_gb' in limit:
+            ctor['mem_gb'] = mem
+        diag = bool((j // 2) % 2)
+        bwmode = 'adaptive' if (j % 3 == 1 and kern != 'sum_power_laplace') else 'constant'
+        iters = [0, 1, 2, 3][(j // 2) % 4]
+        if n > 150:
+            iters = min(iters, 2 if n <= 300 else 1)          # cost: several AGOP rounds over hundreds of rows
+        early = bool(rr.integers(0, 2)); rb = bool(rr.integers(0, 2))
+        lam = float([1e-2, 1e-1, 1.0][j % 3])
+        d = int(rr.integers(2, 5)); nout = 1 + (j // 4) % 2
+        exponent = float([1.0, 1.2, 0.8][(j // 7) % 3])
+        agop_limits = {}
+        if j % 4 == 2:
+            agop_limits = dict(M_batch_size=[1, 7, max(1, n // 3)][(j // 4) % 3], total_points_to_sample=max(2, n // 2))
+        Xn = rr.standard_normal((n, d)); Yn = np.sin(Xn[:, :1]) + 0.5 * rr.standard_normal((n, nout))
+        X = torch.tensor(Xn, dtype=dtype); Y = torch.tensor(Yn, dtype=dtype)
+        Xv = torch.tensor(rr.standard_normal((20, d)), dtype=dtype); Yv = torch.tensor(rr.standard_normal((20, nout)), dtype=dtype)
+        exceeds = (('mem_gb' in limit and n > cap) or (point_cap is not None and n > point_cap))
+        desc = dict(regime='resource-limit', j=j, limit=limit, mem_gb=ctor.get('mem_gb'), gram_bytes=n * n * (8 if dtype == torch.float64 else 4),
+                    budget_bytes=(int(mem * 1024 ** 3) if 'mem_gb' in limit else None), largest_n_that_fits=(cap if 'mem_gb' in limit else None),
+                    max_lstsq_size=point_cap, kernel=kern, solver=solver, dtype=str(dtype), diag=diag, bw=bwmode, iters=iters, early=early, rb=rb, lam=lam,
+                    n=n, d=d, nout=nout, exponent=exponent, agop_limits=agop_limits, seed=ck.seed)
+        xr.seed_all(2400 + j + ck.seed)
+        m = xr.RealRFM(kernel=kern, iters=iters, bandwidth=2.0, exponent=exponent, bandwidth_mode=bwmode, device='cpu', diag=diag,
+                       verbose=False, tuning_metric='mse', **ctor, **extra)
+        if point_cap is not None:
+            m.max_lstsq_size = point_cap
+        log = []
+        try:
+            with solver_log(log), xr.quiet():
+                m.fit((X, Y), (Xv, Yv), iters=iters, reg=lam, solver=solver, method='lstsq', return_best_params=rb, early_stop_rfm=early,
+                      early_stop_multiplier=1.05, verbose=bool(j % 8 == 3), **agop_limits)
+        except Exception as e:
+            ck.violation(f'leaf fit raised {e!r} on {desc}', dict(desc, error=repr(e)), key=json.dumps(dict(site='fit-raise', kernel=kern, solver=solver)))
+            continue
+        ck.count('resource limit: %s, training set %s' % (limit, 'exceeds it' if exceeds else 'is exactly at it'))
+        ck.count(f'resource limit: {dtype}'); ck.count(f'resource limit: kernel={kern}')
+        lam_ = lam
+        u = 2.0 ** -52 if dtype == torch.float64 else 2.0 ** -23
+        W = m.weights.double(); Yd = Y.double()
+        replay = dict(desc, swallowed=log[:2])
+        if n * d <= 4000:
+            replay.update(X=Xn.tolist() if dtype == torch.float64 else X.double().tolist(), Y=Yd.tolist())
+        if tuple(W.shape) != tuple(Yd.shape) or not torch.equal(m.centers.double(), X.double()):
+            ck.violation(f'stored centers {tuple(m.centers.shape)} / coefficients {tuple(W.shape)} are not those of the {n} training rows on {desc}',
+                         replay, key=json.dumps(dict(site='resource-limit-centers', limit=limit)))
+            continue
+        with xr.quiet():
+            K = m.kernel(m.centers, m.centers).double()
+            P = m.predict(m.centers).double()
+        A = K + lam_ * torch.eye(n, dtype=torch.float64)
+        scale = float(A.abs().sum(1).max() * W.abs().max() + Yd.abs().max())
+        tol = 200 * n * u * scale
+        R1 = (A @ W - Yd).abs(); r1 = float(R1.max())
+        r2 = float((P - (Yd - lam_ * W)).abs().max())
+        # independent Gram matrix: documented closed form, float64 numpy, from the STORED centers / feature matrix / bandwidth
+        kn = orc.kname_of(m.kernel_obj); par = orc.kernel_params(m.kernel_obj)
+        mat = m.sqrtM if m.use_sqrtM else m.M
+        Kc = torch.tensor(gram_closed_form_np(kn, m.centers.double().numpy(), None if mat is None else mat.detach().double().numpy(), **par))
+        R3 = ((Kc + lam_ * torch.eye(n, dtype=torch.float64)) @ W - Yd).abs(); r3 = float(R3.max())
+        # the library evaluates its Gram matrix in the dtype of the fit; the memory-light kernel gets distances from ||x||^2 - 2 x.z + ||z||^2, whose
+        # cancellation leaves about sqrt(u)|x| in a point's distance to ITSELF (one entry per row): (sqrt(u) |x| / L)^min(1,q) |alpha|
+        xmax = float(m.centers.double().norm(dim=1).max()) * (1.0 if mat is None else max(1.0, float(mat.detach().double().abs().max())) * math.sqrt(d))
+        # (torch.cdist, which the 'l2' kernel calls, switches to the same matmul form above 25 rows)
+        mm_distances = (kn == 'l2_light') or (kn == 'l2' and n > 25)
+        light = (8 * (math.sqrt(u * d) * xmax / float(par['L'])) ** min(1.0, float(par['q'])) * float(W.abs().max())) if mm_distances else 0.0
+        tol3 = tol * 20 + 1e-9 * scale + light
+        zero_rows = int((W.abs().sum(1) == 0).sum())
+        ck.case(dict(desc, residual=r1, residual_closed_form=r3, tol=tol, tol_closed_form=tol3, best_iter=m.best_iter, exact_zero_coefficient_rows=zero_rows),
+                nontrivial=exceeds, sample=(j % 11 == 0))
+        ck.count('resource limit: closed-form (numpy float64) Gram residual checked')
+        if r1 <= tol and r2 <= tol and r3 <= tol3:
+            continue
+        Rw, rw, which = (R1, r1, "the library's kernel on the stored state") if not (r1 <= tol) else ((R3, r3, 'the closed-form Gram matrix of the stored state') if not (r3 <= tol3) else (None, r2, None))
+        if Rw is None:
+            ck.violation(f'predict(centers) != Y - lambda alpha: {r2:.3g} > {tol:.3g} with a training set at or beyond a configured resource limit on {desc}',
+                         dict(replay, residual=r2, tol=tol), key=json.dumps(dict(site='resource-limit-residual', limit=limit)))
+            continue
+        a = int(Rw.max(1).values.argmax())
+        row = dict(row=a, x=X[a].double().tolist(), y=Yd[a].tolist(), K_alpha=(K @ W)[a].tolist(), alpha=W[a].tolist(), predict=P[a].tolist())
+        lims = []
+        if 'mem_gb' in limit:
+            lims.append(f'mem_gb={mem:g} (budget {desc["budget_bytes"]} bytes, largest n that fits {cap})')
+        if point_cap is not None:
+            lims.append(f'max_lstsq_size={point_cap}')
+        ck.violation(f'training set of {n} {str(dtype).split(".")[-1]} rows (Gram matrix {desc["gram_bytes"]} bytes) fitted with {" and ".join(lims)}: the stored coefficients do not solve '
+                     f'(K+lambda I) alpha = Y for the stored centers ({which}): residual {rw:.3g} > tol {(tol if Rw is R1 else tol3):.3g}; {zero_rows} of {n} coefficient rows '
+                     f'are exactly zero; worst row {a}: x={row["x"]} Y={row["y"]} (K alpha)={row["K_alpha"]} alpha={row["alpha"]} predict={row["predict"]} '
+                     f'(swallowed solver exceptions: {log[:1]}) on {desc}',
+                     dict(replay, residual=rw, tol=(tol if Rw is R1 else tol3), worst=row, exact_zero_coefficient_rows=zero_rows),
+                     key=json.dumps(dict(site='resource-limit-residual', limit=limit)))
+
+
 def run(ck):
     from harness import xr
     ck.rule = ('(a) scripted score histories through the REAL RFM.fit with tagged stubs, return_best on/off, early stop on/off: the tags of the '
                'stored coefficients / M / sqrtM / bandwidth must be coherent (Coq model + direct check); (b) real leaf fits (float64 and float32, '
                'all CPU kernels, diag/full, solve/cholesky/lu, constant/adaptive, iters 0-5, early stop on/off, best-restore on/off): '
                'residual of (K+lambda I) alpha = Y with K from the STORED state, predict(centers) = Y - lambda alpha, and for n <= 10 the Gram '
-               'matrix recomputed with mpmath from the documented closed form.  non-trivial = iters >= 1; distinct by configuration hash')
-    ck.trusted += ['Coq 8.16.1 kernel + vm_compute', 'harness/scripted.py stubs', 'mpmath closed-form Gram matrix (n <= 10)',
+               'matrix recomputed with mpmath from the documented closed form; (c) real leaf fits whose training set sits AT / one above / well above a configured '
+               'resource limit (constructor mem_gb 1e-6..3e-4 GiB vs the Gram matrix of n float64/float32 rows, the max_lstsq_size attribute, AGOP batch / sample '
+               'limits; forests whose leaves get such a budget): same residuals plus the residual with a float64 numpy Gram matrix of the documented closed '
+               'form (n up to ~400).  non-trivial = iters >= 1 (c: limit exceeded); distinct by configuration hash')
+    ck.trusted += ['Coq 8.16.1 kernel + vm_compute', 'harness/scripted.py stubs', 'mpmath closed-form Gram matrix (n <= 10)', 'numpy float64 closed-form Gram matrix (resource-limit regime)',
                    'LAPACK solve contract: a returned solution of an SPD system has small residual']
     ck.assumptions += ['training rows distinct, lambda > 0', 'tolerance = 200 n u (||K+lambda I|| ||alpha|| + ||Y||), u = 2^-52 / 2^-23']
     ck.check_theorems()
@@ -184,6 +349,9 @@ def run(ck):
                 ck.violation(f'with the Gram matrix of the documented closed form the residual is {worst:.3g} > {tol2:.3g} on {desc}',
                              dict(desc, residual=worst, tol=tol2), key=json.dumps(dict(site='closed-form-residual', kernel=kern)))
 
+    # ---------- (c) real fits beyond a configured resource limit ----------
+    resource_limit_regime(ck, xr)
+
     # ---- leaves INSIDE a forest: every leaf model of a fitted xRFM (split trees, 1-2 trees, adaptive and constant bandwidth) must satisfy the ridge identity
     #      with ITS OWN stored centers / feature matrix / bandwidth (leaf models are separate objects; nothing one leaf does may change another leaf's state)
     from harness import oracle as orc2
@@ -198,11 +366,16 @@ def run(ck):
         Xf = xr.make_X('random', n, d, rr); Yf = rr.standard_normal((n, nout)).astype(np.float32)
         Xvf = xr.make_X('random', 40, d, rr); Yvf = rr.standard_normal((40, nout)).astype(np.float32)
         lam = [1e-2, 1e-1][i % 2]
+        # every fifth forest hands its leaves a memory budget (rfm_params['model']['mem_gb']) that is smaller than a leaf's Gram matrix (float32: 5 / 8 rows fit, leaves hold 11 or more):
+        # a budget is configuration, every leaf must still solve the system of ALL its centers
+        budget_kw = dict(mem_gb=[1e-7, 3e-7][(i // 5) % 2]) if i % 5 == 3 else {}
+        if budget_kw:
+            ck.count('forest whose leaves get a memory budget below their Gram matrix')
         xr.seed_all(2300 + i + ck.seed)
-        fm = xr.xRFM(rfm_params=xr.default_rfm_params(kernel=kern, iters=(2 if i >= 6 else [0, 1, 2][i % 3]), reg=lam, bandwidth=2.0, bandwidth_mode=bwm, exponent=[1.0, 1.2][i % 2], diag=bool(i % 2), **extra),
+        fm = xr.xRFM(rfm_params=xr.default_rfm_params(kernel=kern, iters=(2 if i >= 6 else [0, 1, 2][i % 3]), reg=lam, bandwidth=2.0, bandwidth_mode=bwm, exponent=[1.0, 1.2][i % 2], diag=bool(i % 2), **budget_kw, **extra),
                      max_leaf_size=int(rr.integers(25, 45)), n_trees=[1, 2][(i // 2) % 2], verbose=False, use_temperature_tuning=False, refill_size=20,
                      **(dict(n_tree_iters=tree_iters, split_method='random_global_agop') if tree_iters else {}))
-        desc = dict(kind='forest', i=i, kernel=kern, bw=bwm, n=n, nout=nout, lam=lam, trees=fm.n_trees, tree_iters=tree_iters, seed=ck.seed)
+        desc = dict(kind='forest', i=i, kernel=kern, bw=bwm, n=n, nout=nout, lam=lam, trees=fm.n_trees, tree_iters=tree_iters, leaf_mem_gb=budget_kw.get('mem_gb'), seed=ck.seed)
         try:
             with xr.quiet():
                 fm.fit(torch.tensor(Xf), torch.tensor(Yf), torch.tensor(Xvf), torch.tensor(Yvf))
